@@ -270,7 +270,7 @@ class BinText:
 def sx_bin(x):
     if isinstance(x, C.SymInt):
         if x < 0:
-            raise C.Unmodelled('bin of a negative symbolic value')
+            return bin(x.__index__())       # complete enumeration of the (few) negative values by solver-driven forks
         n = x.bit_length()
         if n == 0:
             return '0b0'
